@@ -145,6 +145,12 @@ def run(ctx):
                     keep = sorted(rng.sample(sorted(full), rng.randint(1, max(1, len(full) - 1))))
                     custom[tk] = {k2: full[k2] for k2 in keep}
                     ck = sorted(set(ck) | {keys.index(tk)})
+                # an EMPTY thermometer entry is a legal override, too (the calibrator reads every missing term as 0): the named
+                # entry is replaced by it - all-zero column - and the set is a custom one (no version)
+                if thermo and rng.random() < 0.15:
+                    tk = rng.choice(thermo)
+                    custom[tk] = {}
+                    ck = sorted(set(ck) | {keys.index(tk)})
                 # a custom top-level entry that the file's entry for this spacecraft does NOT have (the shipped sets list no
                 # `thermometer_0`; the calibrator reads it when given): it must be taken, not dropped
                 if rng.random() < 0.2 and "thermometer_0" not in tables[f][sat]:
